@@ -3,10 +3,10 @@
 package main
 
 import (
-	"bytes"
 	"encoding/binary"
 	"encoding/hex"
 	"fmt"
+	"strings"
 
 	"github.com/slackhq/nebula/overlay/tio"
 	"github.com/slackhq/nebula/overlay/tio/virtio"
@@ -28,7 +28,6 @@ type segSpec struct {
 	Flags  int    `json:"flags"`
 	ID     int    `json:"id"`
 	Seq    uint32 `json:"seq"`
-	Literal bool  `json:"literal"` // print payload and observed segments as complete literals
 	Fill   string `json:"fill"` // payload rule: rand (LCG), mostly-ff (LCG), ff, zero
 	PSeed  uint32 `json:"pseed"`
 }
@@ -58,34 +57,26 @@ func segFill(s *segSpec, pay []byte) {
 	}
 }
 
-// segPsrc renders the payload bytes as a Segment_corr.psrc literal: the rule when it reproduces them, else hex.
-func segPsrc(s *segSpec, pay []byte) string {
-	if s != nil && len(pay) > 0 {
-		want := make([]byte, len(pay))
-		segFill(s, want)
-		if bytes.Equal(want, pay) && !s.Literal {
-			n := hx.N(uint64(len(pay)))
-			switch s.Fill {
-			case "ff":
-				return hx.App("Segment_corr.PRep", "255", n)
-			case "zero":
-				return hx.App("Segment_corr.PRep", "0", n)
-			case "mostly-ff":
-				return hx.App("Segment_corr.PMix", hx.N(uint64(s.PSeed)), n)
-			default:
-				return hx.App("Segment_corr.PLcg", hx.N(uint64(s.PSeed)), n)
+// segPack renders bytes as a Segment_corr.packed literal: (length, seven bytes big-endian per 63-bit integer).
+func segPack(b []byte) string {
+	var sb strings.Builder
+	fmt.Fprintf(&sb, "(%d, [", len(b))
+	for i := 0; i < len(b); i += 7 {
+		var x uint64
+		for k := 0; k < 7; k++ {
+			x <<= 8
+			if i+k < len(b) {
+				x |= uint64(b[i+k])
 			}
 		}
+		if i > 0 {
+			sb.WriteString("; ")
+		}
+		fmt.Fprintf(&sb, "0x%x", x)
 	}
-	if len(pay) > segMaxLit {
-		panic(fmt.Sprintf("segment: literal payload of %d bytes", len(pay)))
-	}
-	return hx.App("Segment_corr.PHex", segHex(pay))
+	sb.WriteString("]%uint63)")
+	return sb.String()
 }
-
-const segMaxLit = 12000 // coqc overflows its stack on string literals beyond ~15000 bytes
-
-func segHex(b []byte) string { return "\"" + hex.EncodeToString(b) + "\"%string" }
 
 func (s *segSpec) cs() int {
 	if s.V4 {
@@ -133,7 +124,6 @@ type segResult struct {
 	segs     [][]byte
 	err      bool
 	panicked bool
-	hl       int // header length in effect (pipeline: as corrected by CorrectHdrLen), 0 = unknown
 }
 
 func segCollect(run func(yield func(seg []byte) error) error) (r segResult) {
@@ -163,58 +153,26 @@ func segDirect(tcp bool, pkt []byte, hl, cs, gso uint16) segResult {
 
 func segPipe(vnet [10]byte, pkt []byte) segResult {
 	buf := append([]byte(nil), pkt...)
-	hl := 0
-	r := segCollect(func(y func([]byte) error) error {
+	return segCollect(func(y func([]byte) error) error {
 		p, err := tio.VerifDecodeRead(vnet, buf)
 		if err != nil {
 			return err
 		}
-		hl = int(p.GSO.HdrLen)
 		return tio.SegmentSuperpacket(p, y)
 	})
-	r.hl = hl
-	return r
 }
 
 func runSegment(c *hx.Ctx) {
-	cw := c.NewCaseWriter("From Coq Require Import String.\nFrom NV Require Import corr.Segment_corr.", "Segment_corr.case", "Segment_corr.check_case", 24)
-	// the observed segments: headers as literals; a payload equal to the input bytes at the running offset as a reference
-	resLit := func(s *segSpec, pkt []byte, r segResult) string {
+	cw := c.NewCaseWriter("From Coq Require Import Uint63.\nFrom NV Require Import corr.Segment_corr.", "Segment_corr.case", "Segment_corr.check_case", 40)
+	resLit := func(r segResult) string {
 		if r.err || r.panicked {
 			return hx.None()
 		}
-		hl := r.hl
-		if hl == 0 {
-			hl = s.hl()
-		}
 		items := make([]string, len(r.segs))
-		off := hl
 		for i, sg := range r.segs {
-			h := sg
-			if len(h) > hl {
-				h = sg[:hl]
-			}
-			rest := sg[len(h):]
-			var pay string
-			if !s.Literal && len(rest) > 0 && off+len(rest) <= len(pkt) && bytes.Equal(rest, pkt[off:off+len(rest)]) {
-				pay = hx.App("Segment_corr.ORef", hx.N(uint64(off)), hx.N(uint64(len(rest))))
-			} else {
-				if len(rest) > segMaxLit {
-					rest = rest[:segMaxLit] // differs from the input anyway: the comparison in Coq fails and reports it
-				}
-				pay = hx.App("Segment_corr.OLit", segHex(rest))
-			}
-			off += len(rest)
-			items[i] = hx.App("Segment_corr.OSeg", segHex(h), pay)
+			items[i] = segPack(sg)
 		}
 		return hx.Some(hx.List(items))
-	}
-	inLit := func(s *segSpec, pkt []byte) (string, string) {
-		k := s.hl()
-		if k > len(pkt) {
-			k = len(pkt)
-		}
-		return segHex(pkt[:k]), segPsrc(s, pkt[k:])
 	}
 	head := func(b []byte) string {
 		if len(b) > 140 {
@@ -246,9 +204,7 @@ func runSegment(c *hx.Ctx) {
 
 	addDirect := func(kind string, s *segSpec, tcp bool, pkt []byte, hl, cs, gso int, nontrivial bool) {
 		r := segDirect(tcp, pkt, uint16(hl), uint16(cs), uint16(gso))
-		r.hl = hl
-		hh, pp := inLit(s, pkt)
-		cw.Add(hx.App("Segment_corr.CDirect", hx.Bool(tcp), hh, pp, hx.N(uint64(hl)), hx.N(uint64(cs)), hx.N(uint64(gso)), resLit(s, pkt, r), hx.Bool(r.panicked)),
+		cw.Add(hx.App("Segment_corr.CDirect", hx.Bool(tcp), segPack(pkt), hx.N(uint64(hl)), hx.N(uint64(cs)), hx.N(uint64(gso)), resLit(r), hx.Bool(r.panicked)),
 			kind, nontrivial && !r.err && !r.panicked, desc("direct", s, pkt, map[string]any{"hl": hl, "cs": cs, "gso": gso, "tcp": tcp}, r))
 	}
 	vnetOf := func(flags, gsoType uint8, hdrLen, gsoSize, csumStart, csumOff uint16) (v [10]byte) {
@@ -259,8 +215,7 @@ func runSegment(c *hx.Ctx) {
 		v := vnetOf(flags, gsoType, hdrLen, gsoSize, csumStart, csumOff)
 		r := segPipe(v, pkt)
 		vh := hx.App("Segment.mkVhdr", hx.N(uint64(flags)), hx.N(uint64(gsoType)), hx.N(uint64(hdrLen)), hx.N(uint64(gsoSize)), hx.N(uint64(csumStart)), hx.N(uint64(csumOff)))
-		hh, pp := inLit(s, pkt)
-		cw.Add(hx.App("Segment_corr.CPipe", vh, hh, pp, resLit(s, pkt, r), hx.Bool(r.panicked)),
+		cw.Add(hx.App("Segment_corr.CPipe", vh, segPack(pkt), resLit(r), hx.Bool(r.panicked)),
 			kind, nontrivial && !r.err && !r.panicked,
 			desc("pipe", s, pkt, map[string]any{"vnet": []int{int(flags), int(gsoType), int(hdrLen), int(gsoSize), int(csumStart), int(csumOff)}}, r))
 	}
@@ -358,10 +313,7 @@ func runSegment(c *hx.Ctx) {
 		}
 	}
 	fills := []string{"rand", "rand", "rand", "ff", "zero", "mostly-ff"}
-	setLiteral := func(s *segSpec) {
-		n := s.hl() + s.PayLen
-		s.Literal = n <= 600 || (n <= 3000 && c.Chance(0.15))
-	}
+
 
 	// budget: the Coq evaluation of one case costs about (#segments x packet length) list steps
 	budget := 500000
@@ -385,19 +337,21 @@ func runSegment(c *hx.Ctx) {
 		if s.V4 && c.Chance(0.05) && s.IHL*4+s.Doff*4 <= 112 {
 			s.Gap = 4 * (1 + c.Intn(2))
 		}
-		switch c.Intn(10) {
-		case 0:
+		switch c.Intn(20) {
+		case 0, 1:
 			s.PayLen = 0
-		case 1:
+		case 2, 3:
 			s.PayLen = 1 + c.Intn(8)
-		case 2, 3, 4:
+		case 4, 5, 6, 7, 8, 9:
 			s.PayLen = c.Intn(1500)
-		case 5, 6, 7:
-			s.PayLen = c.Intn(5000)
-		case 8:
+		case 10, 11, 12, 13:
+			s.PayLen = c.Intn(3000)
+		case 14, 15:
+			s.PayLen = c.Intn(6000)
+		case 16:
 			s.PayLen = c.Intn(20001)
 		default:
-			s.PayLen = 2*c.Intn(3000) + 1 // odd
+			s.PayLen = 2*c.Intn(1500) + 1 // odd
 		}
 		switch c.Intn(8) {
 		case 0:
@@ -428,7 +382,7 @@ func runSegment(c *hx.Ctx) {
 		for {
 			n := (s.PayLen + s.GSO - 1) / s.GSO
 			// ... and the observed headers (always literals) below ~8 KB per case
-			if n*(s.PayLen+s.hl()) <= budget && n*s.hl() <= 8000 {
+			if n*(s.PayLen+s.hl()) <= budget && n*s.hl() <= 40000 {
 				break
 			}
 			s.PayLen /= 2
@@ -438,7 +392,6 @@ func runSegment(c *hx.Ctx) {
 		s.Seq = edge32()
 		s.Fill = fills[c.Intn(len(fills))]
 		s.PSeed = uint32(c.U64())
-		setLiteral(s)
 		return s
 	}
 
@@ -446,7 +399,7 @@ func runSegment(c *hx.Ctx) {
 	sweep := 0
 	// all 256 flag bytes on a three-segment TCP superpacket (first / middle / last rules), alternating v4/v6
 	for f := 0; f < 256; f++ {
-		s := &segSpec{V4: f%2 == 0, TCP: true, IHL: 5 + f%3, Doff: 5 + f%4, PayLen: 5, GSO: 2, Flags: f, ID: 0xfffe, Seq: 0xfffffffd, Fill: "rand", PSeed: uint32(f), Literal: true}
+		s := &segSpec{V4: f%2 == 0, TCP: true, IHL: 5 + f%3, Doff: 5 + f%4, PayLen: 5, GSO: 2, Flags: f, ID: 0xfffe, Seq: 0xfffffffd, Fill: "rand", PSeed: uint32(f)}
 		pkt := segBuild(c, s)
 		if f%4 < 2 {
 			addDirect("sweep-flags", s, true, pkt, s.hl(), s.cs(), s.GSO, true)
@@ -459,17 +412,17 @@ func runSegment(c *hx.Ctx) {
 	for ihl := 5; ihl <= 15; ihl++ {
 		for _, doff := range []int{5, 8, 15} {
 			for _, pl := range []int{0, 1, 7} {
-				s := &segSpec{V4: true, TCP: true, IHL: ihl, Doff: doff, PayLen: pl, GSO: 3, Flags: 0x99, ID: 0xffff, Seq: 0xffffffff, Fill: "ff", Literal: true}
+				s := &segSpec{V4: true, TCP: true, IHL: ihl, Doff: doff, PayLen: pl, GSO: 3, Flags: 0x99, ID: 0xffff, Seq: 0xffffffff, Fill: "ff"}
 				addValidPipe("sweep-geom", s, segBuild(c, s))
 				sweep++
 			}
 		}
-		s := &segSpec{V4: true, TCP: false, IHL: ihl, PayLen: 9, GSO: 4, ID: 0xfffe, Fill: "rand", PSeed: uint32(ihl), Literal: true}
+		s := &segSpec{V4: true, TCP: false, IHL: ihl, PayLen: 9, GSO: 4, ID: 0xfffe, Fill: "rand", PSeed: uint32(ihl)}
 		addValidPipe("sweep-geom", s, segBuild(c, s))
 		sweep++
 	}
 	for doff := 5; doff <= 15; doff++ {
-		s := &segSpec{V4: false, TCP: true, IHL: 5, Doff: doff, PayLen: 2*doff + 1, GSO: 5, Flags: 0xff, Seq: 0xfffffff0, Fill: "rand", PSeed: uint32(doff), Literal: true}
+		s := &segSpec{V4: false, TCP: true, IHL: 5, Doff: doff, PayLen: 2*doff + 1, GSO: 5, Flags: 0xff, Seq: 0xfffffff0, Fill: "rand", PSeed: uint32(doff)}
 		addValidPipe("sweep-geom", s, segBuild(c, s))
 		sweep++
 	}
@@ -486,13 +439,12 @@ func runSegment(c *hx.Ctx) {
 		if s.GSO < 2 {
 			s.GSO = 2 + c.Intn(1400)
 		}
-		for (s.PayLen+s.GSO-1)/s.GSO*(s.PayLen+s.hl()) > budget || (s.PayLen+s.GSO-1)/s.GSO*s.hl() > 8000 || s.PayLen > 2500 {
+		for (s.PayLen+s.GSO-1)/s.GSO*(s.PayLen+s.hl()) > budget || s.PayLen > 6000 {
 			s.PayLen /= 2
 		}
 		if s.PayLen < 2 {
 			s.PayLen = 2
 		}
-		s.Literal = true
 		pkt := segBuild(c, s)
 		if craftZero(s, pkt, k >= 16) {
 			addDirect("sweep-zero-csum", s, s.TCP, pkt, s.hl(), s.cs(), s.GSO, true)
